@@ -220,7 +220,8 @@ def make_search(mido, depth, base=(0, 0)):
         if k == 'enter':
             # the context-manager form: `with MidiFile(...) as f:`
             try:
-                f.__enter__()
+                if f.__enter__() is not f:
+                    return 'enter-did-not-return-the-file'
             except Exception:
                 pass
             return None
@@ -232,8 +233,11 @@ def make_search(mido, depth, base=(0, 0)):
             return None
         if k == 'add_track':
             # add_track returns the new track, which is then edited
+            n0 = len(f.tracks)
             t = f.add_track()
             t.append(note(0))
+            if len(f.tracks) != n0 + 1 or f.tracks[-1] is not t:
+                return 'add_track-did-not-add-the-returned-track'
         elif k == 'add_track_named':
             f.add_track('n')
         elif k == 'append_track':
@@ -284,6 +288,21 @@ def make_search(mido, depth, base=(0, 0)):
         # after EVERY step, every observation must agree with a freshly built
         # file; the observation op itself is compared first (its result is
         # the one a user saw after this exact history)
+        if op[0] == 'add_track' and obs == \
+                'add_track-did-not-add-the-returned-track':
+            violation('add_track/not-added',
+                      f'history {hist + (op,)}: add_track() returned a track '
+                      f'that is not the new last element of tracks',
+                      {'kind': 'history', 'ops': [list(o) for o in hist + (op,)],
+                       'observe': 'contents', 'base': list(base)})
+            return
+        if op[0] == 'enter' and obs == 'enter-did-not-return-the-file':
+            violation('enter/with-as-is-not-the-file',
+                      f'history {hist + (op,)}: `with MidiFile(...) as f` does '
+                      f'not bind the file itself',
+                      {'kind': 'history', 'ops': [list(o) for o in hist + (op,)],
+                       'observe': 'contents', 'base': list(base)})
+            return
         if op[0] in ('obs', 'partial', 'nested', 'enter', 'exit'):
             # looking at a file does not edit it
             before = build(hist)['f']
